@@ -276,6 +276,8 @@ class C06(runner.Check):
 
 					def call():
 						try:
+							if op.get("thread"):
+								repo.numba_seed(core.derive_seed(case.get("seed", 0), "thread", oi))
 							if kind == "marg":
 								from tangermeme.marginalize import marginalize
 								from tangermeme.deep_lift_shap import deep_lift_shap
